@@ -236,6 +236,8 @@ type Case struct {
 	ForeignVol  bool       `json:"foreign_vol,omitempty"` // a volume of another recovery set named <base>.zforeign.par2
 	DupVol      bool       `json:"dup_vol,omitempty"`     // a copy of the first recovery file named <base>.dup.par2
 	CorruptVol  int        `json:"corrupt_vol,omitempty"` // 1+index of a recovery file in which one byte is flipped (0 = none)
+	RmDirOf     int        `json:"rmdir_of,omitempty"`     // 1+index of a protected file whose sub-directory is removed altogether after the damage (its rewrite must fail)
+	StaleNRec   int        `json:"stale_nrec,omitempty"`   // Create is first run with this many blocks (same set ID), leaving stale, partly overlapping volumes behind
 	SiblingVols bool       `json:"sibling_vols,omitempty"` // recovery files replaced by those of a sibling set with the same set ID (same names, lengths, first 16 KiB; different tails)
 }
 
@@ -287,6 +289,7 @@ func ProtOrder(orig map[string][]byte, S int) []model.ProtFile {
 func BystanderFiles() map[string][]byte {
 	return map[string][]byte{
 		"unrelated.txt":        []byte("bystander one\n"),
+		"docs/notes.txt":       []byte("an unrelated file whose path is the slash spelling of a protected name with a backslash"),
 		"other.vol00+01.par2":  []byte("not a par2 file at all, but the name matches another set's volume"),
 		"notes/readme.md":      []byte("# notes\n"),
 		"set.par2.bak":         []byte("backup-looking file"),
@@ -315,6 +318,11 @@ func Run(c Case, skipRepair bool) *Obs {
 	}
 	idx := filepath.Join(dir, c.IndexName())
 	var err error
+	if c.StaleNRec > 0 {
+		run.Safe(func() {
+			par2.Create(idx, paths, par2.CreateOptions{SliceByteCount: c.Slice, NumParityShards: c.StaleNRec, NumGoroutines: 1})
+		})
+	}
 	if p, msg := run.Safe(func() {
 		err = par2.Create(idx, paths, par2.CreateOptions{SliceByteCount: c.Slice, NumParityShards: c.NRec, NumGoroutines: c.GCreate})
 	}); p {
@@ -329,6 +337,9 @@ func Run(c Case, skipRepair bool) *Obs {
 			if ch.Path != c.IndexName() {
 				o.VolFiles = append(o.VolFiles, ch.Path)
 			}
+		} else if c.StaleNRec > 0 {
+			// impossible: 'before' was taken before both Create runs
+			o.Outputs["!"+ch.Kind+":"+ch.Path] = nil
 		} else {
 			// Create modified or removed something: recorded as an output with nil
 			o.Outputs["!"+ch.Kind+":"+ch.Path] = nil
@@ -354,6 +365,18 @@ func Run(c Case, skipRepair bool) *Obs {
 			}
 		} else {
 			os.Remove(p)
+		}
+	}
+	if c.RmDirOf > 0 {
+		n := o.Names[(c.RmDirOf-1)%len(o.Names)]
+		if d := filepath.Dir(n); d != "." {
+			top := strings.Split(d, "/")[0]
+			os.RemoveAll(filepath.Join(dir, top))
+			for _, m := range o.Names {
+				if strings.HasPrefix(m, top+"/") {
+					delete(state, m)
+				}
+			}
 		}
 	}
 	o.Damaged = state
@@ -486,7 +509,7 @@ func (o *Obs) AllOriginal(snap fsx.Snap) (bool, string) {
 
 // ---------------------------------------------------------------- generators
 
-var nameCorpus = []string{"a.dat", "b file.bin", "sub/c.txt", "sub/deep dir/d", "e-1_2.tar.gz", "dir two/f.F", "g", "h~#(1).x", "sub/i.par2.txt", "J.DAT", "k.k.k", "sub2/l"}
+var nameCorpus = []string{"a.dat", "b file.bin", "docs\\notes.txt", "sub/c.txt", "sub/deep dir/d", "e-1_2.tar.gz", "dir two/f.F", "g", "h~#(1).x", "sub/i.par2.txt", "J.DAT", "k.k.k", "sub2/l"}
 
 // GenNames draws n distinct protected names.
 func GenNames(t *rapid.T, n int) []string {
@@ -558,7 +581,16 @@ func GenFiles(t *rapid.T, S, maxFiles, maxBytes, maxSlices int) []FileSpec {
 			ns = (sz + S - 1) / S
 		}
 		total += ns
-		out = append(out, FileSpec{Name: names[i], Size: sz, Kind: rapid.SampledFrom(kinds).Draw(t, "kind"), Seed: rapid.Uint64Range(0, 1<<20).Draw(t, "fseed")})
+		fs := FileSpec{Name: names[i], Size: sz, Kind: rapid.SampledFrom(kinds).Draw(t, "kind"), Seed: rapid.Uint64Range(0, 1<<20).Draw(t, "fseed")}
+		if len(out) > 0 && rapid.IntRange(0, 6).Draw(t, "clone") == 0 {
+			// an identical copy of an earlier file under another name (whole-file duplicates)
+			src := out[rapid.IntRange(0, len(out)-1).Draw(t, "cloneof")]
+			if total-ns+(src.Size+S-1)/S <= maxSlices {
+				total += (src.Size+S-1)/S - ns
+				fs.Size, fs.Kind, fs.Seed = src.Size, src.Kind, src.Seed
+			}
+		}
+		out = append(out, fs)
 	}
 	return out
 }
